@@ -211,17 +211,43 @@ pub fn tag(tag: &'static str) -> impl Fn(ParseString) -> ParseResult<String> {
   }
 }
 
+// Verification hook (compiled only with `--cfg mech_lang_mech_verif`): a thread-local log of
+// (site, cursor_before, cursor_after, source_len) records written by the hand-written loops and the
+// recovery functions, so that a checker can replay the run and test the progress invariants.
+#[cfg(mech_lang_mech_verif)]
+pub mod verif_hook {
+  use std::cell::RefCell;
+  pub const ALT_OK: u8 = 1; pub const ALT_ERR: u8 = 2; pub const ALT_FAIL: u8 = 3; pub const SKIP_EOS: u8 = 4;
+  pub const TERM_OK: u8 = 5; pub const MECH_ITER: u8 = 6; pub const SECTION_ITER: u8 = 7; pub const BODY_ITER: u8 = 8;
+  pub const SKIP_TILL_EOL: u8 = 9; pub const SKIP_TILL_EOS: u8 = 10; pub const SKIP_TILL_SECTION: u8 = 11;
+  pub const TERM_ZERO: u8 = 12;
+  pub const CAP: usize = 100_000;
+  thread_local! {
+    static LOG: RefCell<Option<(usize, Vec<(u8, usize, usize, usize)>)>> = RefCell::new(None);
+  }
+  pub fn start() { LOG.with(|l| *l.borrow_mut() = Some((0, Vec::new()))); }
+  pub fn take() -> (usize, Vec<(u8, usize, usize, usize)>) { LOG.with(|l| l.borrow_mut().take().unwrap_or((0, Vec::new()))) }
+  #[inline]
+  pub fn push(site: u8, before: usize, after: usize, len: usize) {
+    LOG.with(|l| if let Some((n, v)) = l.borrow_mut().as_mut() { *n += 1; if v.len() < CAP { v.push((site, before, after, len)); } });
+  }
+}
+
 // 3. Recovery functions
 // -----------------------
 
 // skip_till_eol := (!new_line, any)* ;
 pub fn skip_till_eol(input: ParseString) -> ParseResult<Token> {
+  #[cfg(mech_lang_mech_verif)]
+  let (hook_before, hook_len) = (input.cursor, input.graphemes.len());
   let (input, matched) = many0(nom_tuple((
     is_not(new_line),
     any_token,
   )))(input)?;
   let mut matched: Vec<Token> = matched.into_iter().map(|(_, t)| t).collect(); 
   let tkn = Token::merge_tokens(&mut matched).unwrap_or(Token::default()); 
+  #[cfg(mech_lang_mech_verif)]
+  verif_hook::push(verif_hook::SKIP_TILL_EOL, hook_before, input.cursor, hook_len);
   Ok((input, tkn))
 }
 
@@ -235,6 +261,8 @@ pub fn skip_past_eol(input: ParseString) -> ParseResult<Token> {
 
 // skip-till-end-of-statement := *((!new-line, !";"), any) ;
 pub fn skip_till_end_of_statement(input: ParseString) -> ParseResult<Token> {
+  #[cfg(mech_lang_mech_verif)]
+  let (hook_before, hook_len) = (input.cursor, input.graphemes.len());
   // If empty, return
   if input.is_empty() {
       return Ok((input, Token::default()));
@@ -253,12 +281,16 @@ pub fn skip_till_end_of_statement(input: ParseString) -> ParseResult<Token> {
 
   let mut matched: Vec<Token> = matched.into_iter().map(|(_, t)| t).collect();
   let tkn = Token::merge_tokens(&mut matched).unwrap_or(Token::default());
+  #[cfg(mech_lang_mech_verif)]
+  verif_hook::push(verif_hook::SKIP_TILL_EOS, hook_before, input.cursor, hook_len);
 
   Ok((input, tkn))
 }
 
 // skip_till_section_element := skip_past_eol, (!section_element, skip_past_eol)* ;
 pub fn skip_till_section_element(input: ParseString) -> ParseResult<Token> {
+  #[cfg(mech_lang_mech_verif)]
+  let (hook_before, hook_len) = (input.cursor, input.graphemes.len());
   if input.is_empty() {
     return Ok((input, Token::default()));
   }
@@ -270,6 +302,8 @@ pub fn skip_till_section_element(input: ParseString) -> ParseResult<Token> {
   let mut matched: Vec<Token> = vec![matched];
   matched.extend(matched2.into_iter().map(|(_, t)| t));
   let tkn = Token::merge_tokens(&mut matched).unwrap_or(Token::default());
+  #[cfg(mech_lang_mech_verif)]
+  verif_hook::push(verif_hook::SKIP_TILL_SECTION, hook_before, input.cursor, hook_len);
   Ok((input, tkn))
 }
 
@@ -370,6 +404,8 @@ pub fn mech_code(input: ParseString) -> ParseResult<Vec<(MechCode,Option<Comment
 
     let start = new_input.loc();
     let start_cursor = new_input.cursor;
+    #[cfg(mech_lang_mech_verif)]
+    let hook_len = new_input.graphemes.len();
     let (input, code) = match mech_code_alt(new_input.clone()) {
       Err(Err::Error(mut e)) => {
         // if the error is just "Unexpected character", we will just fail.
@@ -383,7 +419,11 @@ pub fn mech_code(input: ParseString) -> ParseResult<Vec<(MechCode,Option<Comment
           e.cause_range = SourceRange { start, end: e.cause_range.end };
           e.log();
           // skip till the end of the statement
+          #[cfg(mech_lang_mech_verif)]
+          let hook_k = e.remaining_input.cursor;
           let (input, skipped) = skip_till_end_of_statement(e.remaining_input)?;
+          #[cfg(mech_lang_mech_verif)]
+          { verif_hook::push(verif_hook::ALT_ERR, start_cursor, hook_k, hook_len); verif_hook::push(verif_hook::SKIP_EOS, hook_k, input.cursor, hook_len); }
           // get tokens from start_cursor to input.cursor
           let skipped_input = input.slice(start_cursor, input.cursor);
           let skipped_token = Token {
@@ -411,7 +451,11 @@ pub fn mech_code(input: ParseString) -> ParseResult<Vec<(MechCode,Option<Comment
         e.cause_range = SourceRange { start, end: e.cause_range.end };
         e.log();
         // skip till the end of the statement
+        #[cfg(mech_lang_mech_verif)]
+        let hook_k = e.remaining_input.cursor;
         let (input, skipped) = skip_till_end_of_statement(e.remaining_input)?;
+        #[cfg(mech_lang_mech_verif)]
+        { verif_hook::push(verif_hook::ALT_FAIL, start_cursor, hook_k, hook_len); verif_hook::push(verif_hook::SKIP_EOS, hook_k, input.cursor, hook_len); }
         // get tokens from start_cursor to input.cursor
         let skipped_input = input.slice(start_cursor, input.cursor);
         let skipped_token = Token {
@@ -425,6 +469,8 @@ pub fn mech_code(input: ParseString) -> ParseResult<Vec<(MechCode,Option<Comment
       Ok(x) => x,
       _ => unreachable!(),
     };
+    #[cfg(mech_lang_mech_verif)]
+    let (hook_term_before, hook_close) = { verif_hook::push(verif_hook::ALT_OK, start_cursor, input.cursor, hook_len); (input.cursor, mika_section_close(input.clone()).is_ok()) };
     let (input, cmmt) = match code_terminal(input) {
       Ok((input, cmmt)) => (input, cmmt),
       Err(e) => {
@@ -436,6 +482,14 @@ pub fn mech_code(input: ParseString) -> ParseResult<Vec<(MechCode,Option<Comment
         return Err(e);
       }
     };
+    #[cfg(mech_lang_mech_verif)]
+    {
+      verif_hook::push(verif_hook::TERM_OK, hook_term_before, input.cursor, hook_len);
+      if input.cursor == hook_term_before && hook_term_before != hook_len {
+        verif_hook::push(verif_hook::TERM_ZERO, hook_term_before, hook_close as usize, hook_len);
+      }
+      verif_hook::push(verif_hook::MECH_ITER, start_cursor, input.cursor, hook_len);
+    }
     output.push((code, cmmt));
     new_input = input;
     if new_input.is_empty() {
